@@ -7,11 +7,11 @@ from vf.core import Shard, rng_for
 
 PROPERTY = 'C13'
 ALPHA = [('P', 1000.), ('P', 600.), ('P', 300.), ('U', -250.), ('U', -700.), ('P', -200.)]
-PAIRS_Q = [(1000, 1200), (1000, 600), (600, 600), (1600, 600), (2000, 500), (300, 250), (1300, 1200)]
-PAIRS_T = PAIRS_Q + [(1000, 1000), (900, 300), (2600, 950), (250, 5000)]
+PAIRS_Q = [(1000, 1200), (1000, 600), (600, 600), (1600, 600), (2000, 500), (300, 250), (1300, 1200), (1000, 0)]
+PAIRS_T = PAIRS_Q + [(1000, 1000), (900, 300), (2600, 950), (250, 5000), (300, 0), (1, 1)]
 RULE = ('(a) exhaustive: every sequence up to length 7 (quick) / 8 (thorough) over the score alphabet {pair 1000, pair '
-        '600, pair 300, unpaired -250, unpaired -700, pair -200} (hits = at every comparison) x 7 (quick) / 11 (thorough) '
-        '(minScore, breakSegmentThreshold) pairs including minScore > breakSegmentThreshold, fed to the real '
+        '600, pair 300, unpaired -250, unpaired -700, pair -200} (hits = at every comparison) x 8 (quick) / 14 (thorough) '
+        '(minScore, breakSegmentThreshold) pairs including minScore > breakSegmentThreshold and breakSegmentThreshold 0, fed to the real '
         'AlignmentSegmentsFactory.getSegments; the returned segments are mapped back to index ranges by object identity '
         'and compared with an executable model of the statement AND with each clause as an independent predicate. '
         '(b) random sequences of length 10-120 with float scores. (c) the same oracle attached to getSegments during '
@@ -145,7 +145,7 @@ def run_random(spec, sh):
                 seq.append(['P', round(1000 - rng.choice([1, 0.5, 2]) * rng.uniform(0, 1500), 1)])
             else:
                 seq.append(['U', float(rng.choice([-250, -100, -400, 0]))])
-        ms, bs = rng.choice([1000, 500, 2000, 300]), rng.choice([1200, 600, 2500, 250])
+        ms, bs = rng.choice([1000, 500, 2000, 300]), rng.choice([1200, 600, 2500, 250, 0])
         pos = mkpos(seq)
         segs = AlignmentSegmentsFactory(ms, bs).getSegments(pos, Peak(0, 1.))
         sh.evaluations += 1
